@@ -25,8 +25,8 @@ def cond(k, neg=False, t1="", t2="", v1=("s", ""), v2=("s", ""), n=""):
             "v2": list(v2) if v2[0] == "s" else ["l", list(v2[1])], "n": n}
 
 
-def act(k, tags=(), v1="", sub=""):
-    return {"k": k, "tags": set(tags), "v1": v1, "sub": sub}
+def act(k, tags=(), v1="", sub="", days="7", secs="3600"):
+    return {"k": k, "tags": set(tags), "v1": v1, "sub": sub, "days": days, "secs": secs}
 
 
 def spaces(tier, prop):
@@ -44,6 +44,11 @@ def spaces(tier, prop):
     if prop != "C19":     # C19 claims header conditions with string values only
         conds.append(cond("header", False, ":is", v1=("l", ["To", "Cc"]), v2=("l", ["@plain", "@nonascii"])))
         conds.append(cond("header", True, ":contains", v1=("s", "From"), v2=("l", ["a", "@space"])))
+        conds.append(cond("header", False, ":is", v1=("l", ["X-" + "Q", "@innerq"]), v2=("l", ["@bslash", "@semi", "x"])))
+        conds.append(cond("address", False, ":is", v1=("l", ["from", "@innerq"]), v2=("l", ["@endbs", "y"])))
+        conds.append(cond("envelope", False, ":is", v1=("l", ["from"]), v2=("l", ["@innerq", "@bslash"])))
+        conds.append(cond("exists", False, v1=("l", ["@innerq", "@bslash"])))
+        conds.append(cond("body", False, ":text", ":contains", v1=("l", ["@semi", "@endbs"])))
     conds += [cond("true"), cond("false")]
     conds += [cond("size", False, ":over", n="100K"), cond("size", False, ":under", n="2M")]
     conds += [cond("exists", False, v1=("l", ["X-A"])), cond("exists", True, v1=("l", ["X-A", "X-B"])),
@@ -73,6 +78,8 @@ def spaces(tier, prop):
     for tg in ([], [":subject"], [":subject", ":days"], [":days", ":from"], [":seconds"], [":subject", ":handle", ":mime"],
                [":subject", ":days", ":from", ":handle"]):
         acts.append(act("vacation", tg, "gone" if len(tg) != 1 else vals[-1], sub=vals[1]))
+    acts.append(act("vacation", [":days"], "zero days", days="0"))
+    acts.append(act("vacation", [":seconds", ":subject"], "zero seconds", sub="s", secs="0"))
     return conds, acts
 
 
@@ -157,9 +164,9 @@ def api_act(a):
         if ":subject" in tags:
             out += [":subject", R.content_of(a["sub"])]
         if ":days" in tags:
-            out += [":days", 7]
+            out += [":days", int(a["days"])]
         if ":seconds" in tags:
-            out += [":seconds", 3600]
+            out += [":seconds", int(a["secs"])]
         if ":from" in tags:
             out += [":from", "me@example.org"]
         if ":handle" in tags:
